@@ -172,10 +172,10 @@ def run(ctx):
         pairs, combos = model_check(ctx, "pairs", 2, 1, "PairOps")
         triples, _ = model_check(ctx, "triples", 3, 1, "TripleOpsQuick" if quick else "TripleOps")
         progseqs, _ = model_check(ctx, "program", 2, 2, "ProgramOpsQuick" if quick else "ProgramOps")
-        negs = {}
-        for g in (["NoIterGuard", "NoFreezeGuard", "NoOnceGuard"] if quick else
-                  ["NoIterGuard", "NoFreezeGuard", "NoCellGuard", "NoOnceGuard", "NoPublish"]):
-            negs[g] = negative_check(ctx, g)
+        variants = (["NoIterGuard", "NoFreezeGuard", "NoOnceGuard"] if quick else
+                    ["NoIterGuard", "NoFreezeGuard", "NoCellGuard", "NoOnceGuard", "NoPublish"])
+        with concurrent.futures.ThreadPoolExecutor(3) as ex:      # tiny models: JVM start-up dominates
+            negs = dict(zip(variants, ex.map(lambda g: negative_check(ctx, g), variants)))
         ctx.log("negative design checks (guard removed => TLC reports the race): " + ", ".join("%s: %s" % kv for kv in negs.items()))
 
         # ------------------------------------------------------------ (2) write-after-publish on one thread
